@@ -26,6 +26,26 @@ def main():
     from pyworkers.remote_server import spawn_server
     viol, obs = [], {}
     want = sc.get('lemma') or ''
+    if 'L7' in want:
+        # a graceful terminate landing inside PersistentThreadWorker._cleanup: run in a sub-process that has the line injector active in itself
+        import subprocess
+        here = os.path.dirname(os.path.abspath(__file__))
+        injs = sc.get('injections') or []
+        line = 'self._results_pipe.child_end.put((self._counter, False'
+        if injs and injs[0] and len(injs[0]) > 3 and 'put' not in str(injs[0][3]):
+            line = str(injs[0][3])[:40]
+        env = dict(os.environ, PYVC_INJECT=f'persistent_thread.py|_cleanup|{line}|WTE||before',
+                   PYTHONPATH=os.path.join(here, 'inject') + os.pathsep + os.environ.get('PYTHONPATH', ''))
+        p = subprocess.run([sys.executable, os.path.join(here, 'c06_thread_sub.py')], capture_output=True, text=True, timeout=60, env=env, cwd=here)
+        try:
+            r = json.loads(p.stdout.strip().splitlines()[-1])
+        except Exception:
+            r = {'violates': False, 'violations': [], 'observed': {'stdout': p.stdout[-500:], 'stderr': p.stderr[-800:]}}
+        r['scenario'] = sc
+        r['injected_line'] = line
+        print(json.dumps(r, default=repr))
+        sys.stdout.flush()
+        os._exit(0)
     server = spawn_server(('127.0.0.1', 0))
     try:
       if not want or 'L5' in want:
